@@ -37,7 +37,9 @@ theorem create_spec {dt : Data} {s : Store} {ch : List Int} {data : List Nat} {r
     (h : s.createRootNode dt ch data = some r) (hw : WF s) (hd : Dense s)
     (hfresh : ∀ x ∈ data, x ∉ vals s.data) :
     r.2 = (s.numNodes : Int) ∧ WF r.1 ∧ Dense r.1 ∧ r.1.forest.names.Perm (r.2 :: s.forest.names) ∧
-      r.2 ∉ keys s.data ∧ r.1.data = (if data.isEmpty then s.data else s.data ++ [(r.2, data)]) := by
+      r.2 ∉ keys s.data ∧ r.1.data = (if data.isEmpty then s.data else s.data ++ [(r.2, data)]) ∧
+      (∀ n' ∈ r.1.forest.recs, (n'.name = r.2 ∧ n'.dps = data) ∨
+        ∃ m ∈ s.forest.recs, n'.name = m.name ∧ n'.dps = m.dps) := by
   unfold createRootNode at h
   simp only [Option.bind_eq_bind, Option.pure_def, Option.bind_eq_some_iff] at h
   obtain ⟨n1, hn1, cis, _, h⟩ := h
@@ -120,7 +122,17 @@ theorem create_spec {dt : Data} {s : Store} {ch : List Int} {data : List Nat} {r
   have hlen : s2.forest.numNodes = s.forest.numNodes + 1 := by
     rw [numNodes_eq, numNodes_eq]
     have := hnames.length_eq; simpa [SF.names] using this
-  refine ⟨rfl, ?_, ?_, hnames, hnm1 ▸ hkey, hD.2⟩
+  have hrec : ∀ n' ∈ s2.forest.recs, (n'.name = (s.numNodes : Int) ∧ n'.dps = data) ∨
+      ∃ m ∈ s.forest.recs, n'.name = m.name ∧ n'.dps = m.dps := by
+    intro n' hn'
+    obtain ⟨m, hm, hcm⟩ := mem_of_map_core_eq (g := id)
+      (rs := n1 :: ((s.forest.takeRoots cis).1.recs ++ (s.forest.takeRoots cis).2.recs))
+      (by simpa [SF.cores] using hc) hn'
+    simp only [core, id, Prod.mk.injEq] at hcm
+    rcases List.mem_cons.1 hm with rfl | hm
+    · left; exact ⟨hcm.2.1.trans hnm1, hcm.2.2.trans hd1⟩
+    · right; exact ⟨m, (takeRoots_perm cis s.forest).subset (by simpa using hm), hcm.2.1, hcm.2.2⟩
+  refine ⟨rfl, ?_, ?_, hnames, hnm1 ▸ hkey, hD.2, hrec⟩
   · rw [wf_iff]; exact ⟨(hG.perm hp).same hs, (hM.perm hp).same hs, (hD.1.perm hp).same hs⟩
   · intro n hn
     have : n.name ∈ (s.numNodes : Int) :: s.forest.names := hnames.subset (mem_names.2 ⟨n, hn, rfl⟩)
@@ -136,7 +148,7 @@ theorem create_full_except {dt : Data} {s : Store} {ch : List Int} {data : List 
     (h : s.createRootNode dt ch data = some r) (hs : Inv0 s) (hd : Dense s)
     (hfresh : ∀ x ∈ data, x ∉ vals s.data) :
     ∀ n ∈ r.1.forest.recs, n.name ≠ r.2 → n.name ∈ keys r.1.data := by
-  obtain ⟨_, _, _, hn, _, hdat⟩ := create_spec h hs.1 hd hfresh
+  obtain ⟨_, _, _, hn, _, hdat, _⟩ := create_spec h hs.1 hd hfresh
   intro n hn' hne
   have : n.name ∈ r.2 :: s.forest.names := hn.subset (mem_names.2 ⟨n, hn', rfl⟩)
   rcases List.mem_cons.1 this with h' | h'
@@ -150,7 +162,7 @@ theorem create_full_except {dt : Data} {s : Store} {ch : List Int} {data : List 
 theorem create_inv {dt : Data} {s : Store} {ch : List Int} {data : List Nat} {r : Store × Int}
     (h : s.createRootNode dt ch data = some r) (hs : Inv0 s) (hd : Dense s) (hne : data ≠ [])
     (hfresh : ∀ x ∈ data, x ∉ vals s.data) : Inv0 r.1 ∧ Dense r.1 := by
-  obtain ⟨_, hw, hd', _, _, hdat⟩ := create_spec h hs.1 hd hfresh
+  obtain ⟨_, hw, hd', _, _, hdat, _⟩ := create_spec h hs.1 hd hfresh
   refine ⟨⟨hw, fun n hn => ?_⟩, hd'⟩
   by_cases hc : n.name = r.2
   · show n.name ∈ keys r.1.data
@@ -162,7 +174,7 @@ theorem create_inv {dt : Data} {s : Store} {ch : List Int} {data : List Nat} {r 
 theorem create_data {dt : Data} {s : Store} {ch : List Int} {data : List Nat} {r : Store × Int}
     (h : s.createRootNode dt ch data = some r) (hw : WF s) (hd : Dense s)
     (hfresh : ∀ x ∈ data, x ∉ vals s.data) : (vals r.1.data).Perm (data ++ vals s.data) := by
-  obtain ⟨_, _, _, _, _, hdat⟩ := create_spec h hw hd hfresh
+  obtain ⟨_, _, _, _, _, hdat, _⟩ := create_spec h hw hd hfresh
   rw [hdat]; split
   · rename_i he
     have : data = [] := by simpa using he
@@ -175,11 +187,42 @@ theorem createAdd_inv {dt : Data} {s s' : Store} {ch : List Int} {dp : Nat} {r :
     (h1 : s.createRootNode dt ch [] = some r) (h2 : r.1.addDataPointToNode dt dp r.2 = some s')
     (hs : Inv0 s) (hd : Dense s) : Inv0 s' ∧ Dense s' ∧ (vals s'.data).Perm (dp :: vals s.data) := by
   have hfresh : ∀ x ∈ ([] : List Nat), x ∉ vals s.data := by simp
-  obtain ⟨_, hw, hd', _, _, _⟩ := create_spec h1 hs.1 hd hfresh
+  obtain ⟨_, hw, hd', _, _, _, _⟩ := create_spec h1 hs.1 hd hfresh
   refine ⟨⟨addDp_wf h2 hw, addDp_full h2 hw (create_full_except h1 hs hd hfresh)⟩,
     addDp_dense h2 hw hd', ?_⟩
   have := create_data h1 hs.1 hd hfresh
   simp only [List.nil_append] at this
   exact (addDp_data h2 hw).trans (List.Perm.cons dp this)
+
+theorem create_aligned {dt : Data} {s : Store} {ch : List Int} {data : List Nat} {r : Store × Int}
+    (h : s.createRootNode dt ch data = some r) (hw : WF s) (hd : Dense s)
+    (hfresh : ∀ x ∈ data, x ∉ vals s.data) (ha : Aligned s) : Aligned r.1 := by
+  obtain ⟨_, _, _, _, hkey, hdat, hrec⟩ := create_spec h hw hd hfresh
+  intro n' hn'
+  rw [dataOf_eq, hdat]
+  rcases hrec n' hn' with ⟨h1, h2⟩ | ⟨m, hm, h1, h2⟩
+  · rw [h1, h2]
+    split
+    · rename_i he
+      rw [dOf_of_not_mem hkey]; simpa using he
+    · simp [dOf, List.lookup_append, lookup_none_iff.2 hkey]
+  · have hne : m.name ≠ r.2 := fun hc => by
+      have := hw.d.payload_data m hm
+      -- `r.2` is not a name of `s`
+      have hk : m.name ∈ s.forest.names := mem_names.2 ⟨m, hm, rfl⟩
+      obtain ⟨hr2, _, _, hn, _, _, _⟩ := create_spec h hw hd hfresh
+      have := hd m hm; rw [hc, hr2] at this; omega
+    rw [h1, h2, ha m hm, dataOf_eq]
+    split
+    · rfl
+    · have : (m.name == r.2) = false := by simpa using hne
+      simp [dOf, List.lookup_append, List.lookup_cons, this]
+
+theorem createAdd_aligned {dt : Data} {s s' : Store} {ch : List Int} {dp : Nat} {r : Store × Int}
+    (h1 : s.createRootNode dt ch [] = some r) (h2 : r.1.addDataPointToNode dt dp r.2 = some s')
+    (hs : Inv0 s) (hd : Dense s) (ha : Aligned s) : Aligned s' := by
+  have hfresh : ∀ x ∈ ([] : List Nat), x ∉ vals s.data := by simp
+  obtain ⟨_, hw, _, _, _, _, _⟩ := create_spec h1 hs.1 hd hfresh
+  exact addDp_aligned h2 hw (create_aligned h1 hs.1 hd hfresh ha)
 
 end PhyModel.Store
